@@ -218,6 +218,17 @@ def check (pid : String) (j : Json) : Except String Verdict := do
       else if res = "err:other" && !(delivers.any (fun (d, items) => d > sIdx && d < dIdx && items.any (fun it => it.1 = n))) then
         sf := some s!"C06.only_own_name: lookup {t} of {n} was ended with the removed-error although no response supplied {n} while it waited (it was woken by an update for other names)"
     if pid = "C07" && sf.isNone then
+      -- real-time order for a blocking lookup: an update that supplied the name completed after the lookup had started and
+      -- before its deadline fired, and nothing removed the name again: in every sequential order consistent with real time
+      -- the lookup comes after that update and before its deadline, so it returns the value
+      let suppliedRT := delivers.any (fun (d, items) => d > sIdx && d < dIdx && (match dl with | some x => d < x | none => true)
+        && items.any (fun it => it.1 = n) && !(evicts.any (fun (ev, m) => m = n && ev > d && ev < dIdx))
+        && !(delivers.any (fun (d2, items2) => d2 > d && d2 < dIdx && !items2.any (fun it => it.1 = n))))
+      if suppliedRT && !res.startsWith "val:" then
+        sf := some s!"C07.real_time_order: lookup {t} of {n} returned '{res}' although an update supplying {n} completed while it waited, before its deadline, and the value stayed current: no sequential order consistent with real time explains that result"
+      else if suppliedRT && forced.contains t then
+        sf := some s!"C07.real_time_order: lookup {t} of {n} slept through the update that supplied {n} and returned only when its deadline was fired"
+    if pid = "C07" && sf.isNone then
       if res.startsWith "val:" then
         let v := (res.drop 4).toString
         -- linearizable: v was the current value at some point between the lookup's start and its return
